@@ -198,6 +198,14 @@ DoUpdateIOFail(i, v, w) ==
   /\ Emit([op |-> "UpdatePlanIOFail", id |-> i, obj |-> "plan", v |-> v, st |-> PStatus(v), old |-> PStatus(store[i].ver["plan"]),
            w |-> w, r |-> "any"])
 
+(* Delete of a live plan whose storage operation number w is refused (cosmosdb deletes the plan's items and then the  *)
+(* search record: two operations).  Whether the plan is gone afterwards is not fixed, but it must be gone or there for  *)
+(* Read, Exists and List alike.  Ends the history, like a refused update.                                               *)
+DoDeleteIOFail(i, w) ==
+  /\ IsLive(store, i)
+  /\ clock' = clock /\ store' = store
+  /\ Emit([op |-> "DeleteIOFail", id |-> i, w |-> w, r |-> "any"])
+
 DoRead(i) == /\ UNCHANGED <<store, clock>>
              /\ Emit([op |-> "Read", id |-> i, r |-> IF IsLive(store, i) THEN "ok" ELSE "err"])
 DoDelete(i) == /\ clock' = clock
@@ -227,12 +235,13 @@ P(S) == IF Sim /\ S # {} THEN {RandomElement(S)} ELSE S
 
 Next ==
   /\ Len(hist) < MaxLen
-  /\ LastOp \notin {"Queries", "UpdatePlanIOFail"}      \* the bulk step and a refused update end a history
+  /\ LastOp \notin {"Queries", "UpdatePlanIOFail", "DeleteIOFail"}      \* the bulk step and a refused update / delete end a history
   /\ \/ "Create" \in Ops /\ \E i \in P(CIds), sn \in P(ShapeNames), g \in P(Groups), v0 \in P(InitVers) : DoCreate(i, sn, g, v0)
      \/ "CreateFail" \in Ops /\ \E i \in P(CIds), sn \in P(ShapeNames), g \in P(Groups) : \E bad \in P(ActionsOf(sn)) : DoCreateFail(i, sn, g, bad)
      \/ "CreateIOFail" \in Ops /\ \E i \in P(CIds), sn \in P(ShapeNames), g \in P(Groups), w \in P({1, 2}) : DoCreateIOFail(i, sn, g, w)
      \/ "Update" \in Ops /\ \E i \in P(Ids) : \E o \in P(UpdObjs(i)) : \E v \in P(NextVers(i, o)) : DoUpdate(i, o, v)
      \/ "UpdatePlan" \in Ops /\ \E i \in P(Ids) : \E v \in P(NextVers(i, "plan")) : DoUpdate(i, "plan", v)
+     \/ "DeleteIOFail" \in Ops /\ \E i \in P(Ids), w \in P({1, 2}) : DoDeleteIOFail(i, w)
      \/ "UpdatePlanIOFail" \in Ops /\ \E i \in P(Ids) : \E v \in P(NextVers(i, "plan")), w \in P({1, 2}) : DoUpdateIOFail(i, v, w)
      \/ "Read" \in Ops /\ \E i \in P(Ids) : DoRead(i)
      \/ "Delete" \in Ops /\ \E i \in P(Ids) : DoDelete(i)
@@ -268,7 +277,7 @@ ListSound == LET all == ListRes(store, 0) IN
 Lst == hist'[Len(hist')]
 Stepped == hist' # hist
 \* a failed Create, a duplicate Create and every query leave the store alone
-FailNoTrace == [][(Stepped /\ Lst.op \in {"CreateDup", "CreateFail", "CreateIOFail", "Read", "Exists", "Search", "SearchNone", "List", "Queries", "UpdatePlanIOFail"})
+FailNoTrace == [][(Stepped /\ Lst.op \in {"CreateDup", "CreateFail", "CreateIOFail", "Read", "Exists", "Search", "SearchNone", "List", "Queries", "UpdatePlanIOFail", "DeleteIOFail"})
                    => store' = store]_vars
 \* Delete removes exactly one plan
 DeleteExact == [][(Stepped /\ Lst.op = "Delete")
